@@ -22,7 +22,7 @@ def main():
         modulepath.addItem(ValueString(args.modulepath))
 
     interpreter = ckl.interpreter.Interpreter(args.secure, args.legacy)
-    interpreter.environment.put("checkerlang_module_path", modulepath)
+    interpreter.base_environment.put("checkerlang_module_path", modulepath)
 
     for scriptfile in args.scripts:
         if os.path.exists(scriptfile):
